@@ -5,7 +5,9 @@ use crate::forwarder::Forwarder;
 use crate::http_codec::HttpCodec;
 use crate::tls_demultiplexer::Protocol;
 use crate::verif::ctx::{ConnErr, Ctx, Dest};
-use crate::verif::pipes::{boxed_sink, boxed_source, test_id, RealSink, RealSource, VSink, VSource};
+use crate::verif::pipes::{
+    boxed_sink, boxed_source, test_id, RealSink, RealSource, VSink, VSource,
+};
 use crate::{
     authentication, core, datagram_pipe, forwarder, http_codec, http_demultiplexer,
     http_downstream, http_forwarded_stream, http_ping_handler, http_speedtest_handler, log_utils,
@@ -144,7 +146,13 @@ pub struct Responded(pub(crate) Box<dyn http_codec::RespondedStreamSink>);
 pub struct DropSink(pub(crate) Box<dyn http_codec::DroppingSink>);
 
 /// The real `Core::make_tcp_http_codec` (HTTP/1.1 or HTTP/2) over any duplex stream
-pub fn make_codec<IO>(ctx: &Ctx, proto: Proto, io: IO, peer: SocketAddr, id: u64) -> io::Result<Codec>
+pub fn make_codec<IO>(
+    ctx: &Ctx,
+    proto: Proto,
+    io: IO,
+    peer: SocketAddr,
+    id: u64,
+) -> io::Result<Codec>
 where
     IO: 'static + AsyncRead + AsyncWrite + Unpin + Send,
 {
@@ -172,7 +180,10 @@ impl Codec {
 
     /// The real `http_codec::stream_into_codec`
     pub fn from_stream(stream: Stream, proto: Proto) -> Codec {
-        Codec(Box::new(http_codec::stream_into_codec(stream.0, proto.into())))
+        Codec(Box::new(http_codec::stream_into_codec(
+            stream.0,
+            proto.into(),
+        )))
     }
 }
 
@@ -414,10 +425,7 @@ pub enum MuxChoice {
 
 #[async_trait]
 pub trait VForwarder: Send + Sync {
-    async fn connect(
-        &self,
-        meta: ConnMeta,
-    ) -> Result<(Box<dyn VSource>, Box<dyn VSink>), ConnErr>;
+    async fn connect(&self, meta: ConnMeta) -> Result<(Box<dyn VSource>, Box<dyn VSink>), ConnErr>;
 
     async fn check_auth(
         &self,
@@ -569,9 +577,9 @@ pub async fn run_tunnel(
         forwarder,
         match policy {
             Policy::Default => tunnel::AuthenticationPolicy::Default,
-            Policy::AuthenticatedSni(x) => tunnel::AuthenticationPolicy::Authenticated(
-                authentication::Source::Sni(x.into()),
-            ),
+            Policy::AuthenticatedSni(x) => {
+                tunnel::AuthenticationPolicy::Authenticated(authentication::Source::Sni(x.into()))
+            }
         },
         test_id(id),
     );
